@@ -1,7 +1,7 @@
 SPECIFICATION Spec
 CONSTANTS
   MaxN = 4
-  NameSet = {"a", "b"}
+  NameSet = {"a", "ab"}
   Prefixes = {}
   Uris = {}
   Texts = {}
